@@ -15,7 +15,7 @@ func init() {
 		ID: "C05", Level: "fault_enumeration", Engine: "netsim+byzantine",
 		Cases: func(tier string) int {
 			if tier == "thorough" {
-				return sysCases() + 80000
+				return sysCases() + sysCMPCases() + 80000
 			}
 			return sysCases() + 4000
 		},
@@ -23,7 +23,7 @@ func init() {
 		Rule: "fault catalogue = (protocol x session kind x handler state reached by a real session prefix under a drawn schedule x message kind x field path x malformation {absent, null, empty, type confusion (uint, negative int, text, bytes, array, map, bool, float), 1 MiB byte string, deep nesting, length-prefix 0 / 2^32-16, truncated nested encoding, oversized array, duplicate map key, indefinite-length item, huge declared length, truncate/extend by one byte, boundary values, bit flip} plus header malformations and raw byte strings); monitors: panic on the calling goroutine, worker-process death, hang watchdog, and the end-state rule (outgoing channel closed <=> Result is final). Non-trivial = the malformed message was actually delivered to a live honest handler. Distinct = (protocol, kind, message kind, operator, path class).",
 		Assumptions: []string{
 			"memory exhaustion is observed as process death / allocation panics under the worker's address-space limit, not measured precisely",
-			"sampling by seed in both tiers (the systematic enumeration of DESIGN.md C05 is approximated by case count; coverage of (message kind x operator) cells is reported)",
+			"the structural catalogue is enumerated cell by cell for small fixed scenarios (frost, taproot, doerner, xor in both tiers; cmp sign and presign in the thorough tier; long equally shaped arrays by three representatives); everything else (larger n, other schedules and handler states, value-level operators, cmp keygen/refresh) is sampled by seed; evidence reports syscell / syscatalogue counts",
 		},
 		RealStub: byzStub,
 	})
@@ -49,6 +49,19 @@ const sysCellsPerScenario = 420
 
 func sysCases() int { return len(sysScenarios) * sysCellsPerScenario }
 
+// thorough tier only: the same enumeration for two-party cmp sessions (each world costs seconds)
+var sysScenariosCMP = []struct {
+	p    scen.Proto
+	k    scen.Kind
+	n, t int
+}{
+	{scen.CMP, scen.KSign, 2, 1}, {scen.CMP, scen.KPresignFull, 2, 1},
+}
+
+const sysCellsPerScenarioCMP = 760
+
+func sysCMPCases() int { return len(sysScenariosCMP) * sysCellsPerScenarioCMP }
+
 func fixedScenario(c *fw.Ctx, p scen.Proto, k scen.Kind, n, t int) *scen.Scenario {
 	ids := scen.IDPool[:n]
 	sc := &scen.Scenario{Kind: k, Proto: p, N: n, T: t, IDs: ids, Parts: ids, SID: []byte(c.Label("sid", "main"))}
@@ -65,6 +78,11 @@ func runC05Systematic(c *fw.Ctx) {
 	si := c.Case % len(sysScenarios)
 	cell := c.Case / len(sysScenarios)
 	sp := sysScenarios[si]
+	if c.Case >= sysCases() {
+		idx := c.Case - sysCases()
+		si, cell = idx%len(sysScenariosCMP), idx/len(sysScenariosCMP)
+		sp = sysScenariosCMP[si]
+	}
 	sc := fixedScenario(c, sp.p, sp.k, sp.n, sp.t)
 	b := newByz(c, sc, sysOps, true, cell)
 	if len(b.Targets) == 0 {
@@ -96,7 +114,7 @@ func maxI(a, b int) int {
 }
 
 func runC05(c *fw.Ctx) {
-	if c.Case < sysCases() {
+	if c.Case < sysCases() || c.Tier == "thorough" && c.Case < sysCases()+sysCMPCases() {
 		runC05Systematic(c)
 		return
 	}
